@@ -44,9 +44,17 @@ pub fn pattern(tok: &str) -> Option<String> {
     }
 }
 
-fn show_list(r: Result<Vec<String>, LayeredFilesystemError>) -> String {
+/// a listing; every listed path is also put to the filesystem's own `exists` ("!exists:[..]" names the ones it denies)
+fn show_list(fsys: &LayeredFilesystem, r: Result<Vec<String>, LayeredFilesystemError>) -> String {
     match r {
-        Ok(v) => format!("ok:[{}]", v.iter().map(|s| esc(s)).collect::<Vec<_>>().join(",")),
+        Ok(v) => {
+            let mut s = format!("ok:[{}]", v.iter().map(|s| esc(s)).collect::<Vec<_>>().join(","));
+            let missing: Vec<String> = v.iter().filter(|p| !safe_rel(p) || !matches!(fsys.exists(p, false), Ok(true))).map(|p| esc(p)).collect();
+            if !missing.is_empty() {
+                s.push_str(&format!(" !exists:[{}]", missing.join(",")));
+            }
+            s
+        }
         Err(e) => err_kind(&e),
     }
 }
@@ -168,9 +176,9 @@ pub fn run(toks: &[&str]) -> String {
             "L" => {
                 let pat = pattern(toks[i + 3]);
                 used = 4;
-                catch_unwind(AssertUnwindSafe(|| show_list(fsys.list(&path, pat.as_deref(), loc)))).unwrap_or_else(|_| "panic".to_string())
+                catch_unwind(AssertUnwindSafe(|| show_list(&fsys, fsys.list(&path, pat.as_deref(), loc)))).unwrap_or_else(|_| "panic".to_string())
             }
-            "S" => catch_unwind(AssertUnwindSafe(|| show_list(fsys.subdirectories(&path, loc)))).unwrap_or_else(|_| "panic".to_string()),
+            "S" => catch_unwind(AssertUnwindSafe(|| show_list(&fsys, fsys.subdirectories(&path, loc)))).unwrap_or_else(|_| "panic".to_string()),
             x => panic!("fs: bad op {}", x),
         };
         i += used;
